@@ -251,3 +251,4 @@ fn k_int_5_report_read_if_reusable() {
     std::mem::forget(g);
     std::mem::forget(local);
 }
+
